@@ -428,6 +428,21 @@ def eval_misc(case):
                     bad('Maint/copy-not-editable', f'{type(e).__name__}: {e}')
                 if snap(mi) != want or mi.to_json() != text:
                     bad('Maint/copy-aliases-original', f'editing a copy changed the finalized original: {snap(mi)}')
+                # forward compatibility: an unknown key inside an entry (at every position) is tolerated, known ones kept
+                obj = json.loads(text) if text else {}
+                for name in obj:
+                    keys = list(obj[name].keys())
+                    for pos in range(len(keys) + 1):
+                        o2 = json.loads(text)
+                        items = list(o2[name].items())
+                        items.insert(pos, ('future_field', 'x'))
+                        o2[name] = dict(items)
+                        try:
+                            z = MaintenanceInfo.from_json(json.dumps(o2))
+                            if z is None or snap(z) != want:
+                                bad('Maint/unknown-key-drops-known', f'{json.dumps(o2)!r} -> {None if z is None else snap(z)} expected {want}')
+                        except Exception as e:
+                            bad('Maint/unknown-key-rejected', f'{json.dumps(o2)!r} raised {type(e).__name__}: {e}')
             for t in (None, ''):
                 if MaintenanceInfo.from_json(t) is not None:
                     bad('Maint/unset-not-absent', f'from_json({t!r}) is not None')
@@ -436,12 +451,13 @@ def eval_misc(case):
             probe = cls(fromstring='%s:x' % _first_type(cls))
             types = probe.lv.get_types(probe.category)
             for atype in types:
-                for val in ('v', 'a:b', '10', 'x y', '', 'é'):
+                for val in ('v', 'a:b', '10', 'x y', '', 'é', ' v', 'v ', ' v w '):
                     x = cls(atype=atype, aval=val)
                     text = x.get_as_string()
                     y = cls(fromstring=text)
                     if y.get_type() != atype or y.get_val() != val:
-                        bad(f'{case[1]}/field-lost', f'{atype}:{val!r} -> {text!r} -> {y.get_type()}:{y.get_val()!r}')
+                        bad(f'{case[1]}/field-lost' + ('/surrounding-blanks' if val != val.strip() else ''),
+                            f'{atype}:{val!r} -> {text!r} -> {y.get_type()}:{y.get_val()!r}')
                     if y.get_as_string() != text or repr(y) != text:
                         bad(f'{case[1]}/not-canonical', f'{text!r}')
                     z = cls(fromstring='%s:x' % atype)
